@@ -277,6 +277,25 @@ class BaseModel(SolverMixin, ModelInterface):
                     f'{offset} + {t} -> position {offset + t_check} >= {len(self.span)} periods in span'
                 )
 
+            # Error (before copying anything) if the values to copy would then be
+            # rejected as pre-existing NaNs or infinities
+            if errors == 'raise' and np.any(
+                ~np.isfinite(
+                    [
+                        self.__dict__['_' + name][
+                            t + offset if name in self.endogenous else t
+                        ]
+                        for name in self.check
+                    ]
+                )
+            ):
+                raise SolutionError(
+                    f'Pre-existing NaNs or infinities found '
+                    f'in one or more `check` variables '
+                    f'in period with label: {self.span[t]} (index: {t}), '
+                    f'once initialised with `offset` ({offset})'
+                )
+
             for name in self.endogenous:
                 self.__dict__['_' + name][t] = self.__dict__['_' + name][t + offset]
 
